@@ -48,7 +48,12 @@ PROPS = {
     ),
     'C08': dict(
         areas=[('matcher', 600, 40000)],
-        rule='matcher area: histories of 4..14 requests served by the real Matcher.Loop sharing one chunk cache, pattern cache '
+        procs=['conv'], needs_fzf=True,
+        rule='conv: the real fzf in a private tmux server fed by a producer writing 30..3000 lines in bursts with pauses, while '
+             '2..11 actions (change-query, put, backward-delete-char, clear-query, toggle-sort, change-nth, reload, reload-sync) '
+             'arrive over --listen 0..80 ms apart, then 0..2 excludes; at quiescence GET /?limit= is compared with the Filter '
+             'model over the loaded input (30 sessions quick, 500 thorough; a non-passing session is re-run twice and believed '
+             'only if it repeats). matcher area: histories of 4..14 requests served by the real Matcher.Loop sharing one chunk cache, pattern cache '
              'and merger cache (query chains that extend / shrink / change case / add inverse, OR, exact and anchored terms; '
              'sort toggles; a reload to a second input under a new major revision; loading progress to chunk boundaries and to '
              'the size of the old input; inputs of 100..500 lines in which matching lines are rare enough for the per-chunk '
